@@ -55,7 +55,7 @@ def c07_1(c: Ctx) -> None:
 
 FWD_OVERRIDES = {
     'hasattr': lambda o, n: isinstance(o, Rec) and n in o,
-    'isinstance': lambda o, k=None: isinstance(o, Rec) and o.get('_cls') == 'EventBus',
+    'isinstance': lambda o, k=None: isinstance(o, Rec) and (o.get('_cls') == 'EventBus' or 'EventBus' in o.get('_bases', ())),
     'inspect.ismethod': lambda o: isinstance(o, Rec) and '__self__' in o,
     'inspect.isfunction': lambda o: isinstance(o, Rec) and '__self__' not in o,
     'inspect.iscoroutinefunction': lambda o: False,
@@ -72,28 +72,58 @@ def run_wcl(c: Ctx, handler: Rec, event: Rec, depth: int = 0):
     ov = dict(FWD_OVERRIDES)
     ov['._handler_dispatched_ancestor'] = lambda *a: depth
     ai = AbsInt(calls=ov)
-    end = ai.run(w.node.body, {ps[0]: Rec(name='A', _cls='EventBus'), ps[1]: event, ps[2]: handler})
-    return ai.returns, end
+    env = {ps[0]: Rec(name='A', _cls='EventBus'), ps[1]: event, ps[2]: handler, 'EventBus': Rec(dispatch=Obj('function', 'EventBus.dispatch'), _is_class=True)}
+    end = ai.run(w.node.body, env)
+    if ai.undecided:
+        raise AnalysisError(f'_would_create_loop: test `{U(ai.undecided[0])[:80]}` is undecided for handler {dict(handler)!r:.120}')
+    return ai.returns, (end, ai.raised)
 
 
-@ob('C07.2', 'ORD', "_would_create_loop returns True for a forwarding handler (another bus's dispatch) whose target bus name is already in event_path, before any "
-    'other consideration, and False when it is not')
+def handler_kinds() -> list[tuple[str, Rec, bool]]:
+    """(description, abstract handler value, is it a forward to another bus?)"""
+    # the target's history is bounded and may have evicted the event already (C13): the path is the only record loop prevention can rely on
+    bus = Rec(name='B', id='idB', _cls='EventBus', event_history={}, handlers={})
+    sub = Rec(name='B', id='idB', _cls='AuditBus', _bases=('EventBus',), event_history={}, handlers={})
+    other = Rec(name='B', _cls='Other')
+    return [
+        ("another bus's bound dispatch", Rec(__self__=bus, __name__='dispatch', __func__=Obj('function', 'EventBus.dispatch')), True),
+        ("bound dispatch of an EventBus subclass that overrides dispatch", Rec(__self__=sub, __name__='dispatch', __func__=Obj('function', 'AuditBus.dispatch')), True),
+        ('bound method named dispatch of a non-bus object', Rec(__self__=other, __name__='dispatch', __func__=Obj('function', 'Other.dispatch')), False),
+        ('another bound method of an EventBus', Rec(__self__=bus, __name__='on_event', __func__=Obj('function', 'EventBus.on_event')), False),
+        ('plain function named dispatch', Rec(__name__='dispatch'), False),
+    ]
+
+
+@ob('C07.2', 'ORD', "_would_create_loop returns True for a forwarding handler (another bus's dispatch, also of an EventBus subclass) whose target bus name is already in "
+    'event_path, before any other consideration, and False when it is not, at any nesting depth (forwarding is exempt from the recursion guard); a handler that is not a '
+    'forward is never cut by the path test and stays subject to the recursion guard')
 def c07_2(c: Ctx) -> None:
     w = c.unit(SVC, 'EventBus._would_create_loop')
-    fwd = Rec(__self__=Rec(name='B', id='idB', _cls='EventBus'), __name__='dispatch')
-    cases = [
-        ('target bus already in path', Rec(event_path=['A', 'B'], event_results={}, event_id='E', event_parent_id=None), 5, [True]),
-        ('target bus not in path', Rec(event_path=['A'], event_results={}, event_id='E', event_parent_id=None), 0, [False]),
-        ('target bus not in path, deep ancestry (forwarding is exempt from the recursion guard)', Rec(event_path=['A'], event_results={}, event_id='E', event_parent_id='P'), 5, [False]),
-    ]
-    for desc, ev, depth, want in cases:
-        rets, end = run_wcl(c, fwd, ev, depth)
-        if any(r is UNKNOWN for r in rets):
-            raise AnalysisError(f'_would_create_loop: undecided for forwarding handler, {desc}')
-        if rets == want:
-            c.ok(where(w), f'forwarding handler, {desc} -> {want[0]}')
+    for kdesc, h, is_fwd in handler_kinds():
+        in_path = Rec(event_path=['A', 'B'], event_results={}, event_id='E', event_parent_id=None)
+        not_in_path = Rec(event_path=['A'], event_results={}, event_id='E', event_parent_id=None)
+        deep = Rec(event_path=['A'], event_results={}, event_id='E', event_parent_id='P')
+        if is_fwd:
+            similar = Rec(event_path=['A', 'B2', 'SubB'], event_results={}, event_id='E', event_parent_id=None)
+            cases = [('target bus already in path', in_path, 5, [True], False), ('target bus not in path', not_in_path, 0, [False], False),
+                     ("target bus not in path, but buses whose names contain its name are ('B2', 'SubB')", similar, 0, [False], False),
+                     ('target bus not in path, deep ancestry (forwarding is exempt from the recursion guard)', deep, 5, [False], False)]
         else:
-            c.fail(w, f'forwarding handler, {desc} -> {rets or "raises"}', f'_would_create_loop gives {rets or "an exception"} for a forwarding handler when {desc} (must be {want[0]}): ' + ('forwarding cycles are not cut' if want[0] else 'legitimate forwarding is suppressed'))
+            cases = [("a bus named like the object's `name` is in the path (no forward: the path test must not apply)", in_path, 0, [False], False),
+                     ('deep ancestry (the recursion guard applies)', deep, 5, [], True)]
+        for desc, ev, depth, want, want_raise in cases:
+            rets, (end, raised) = run_wcl(c, h, ev, depth)
+            if any(r is UNKNOWN for r in rets):
+                raise AnalysisError(f'_would_create_loop: undecided for {kdesc}, {desc}')
+            got_raise = bool(raised) and not rets
+            if rets == want and got_raise == want_raise:
+                c.ok(where(w), f'{kdesc}, {desc} -> {"raises (recursion guard)" if want_raise else want[0]}')
+            else:
+                got = 'an exception' if got_raise else (rets or 'nothing')
+                wanted = 'the recursion-guard exception' if want_raise else want[0]
+                why = ('forwarding cycles are not cut' if want == [True] else 'legitimate forwarding is suppressed / the event is never delivered to the target bus') if is_fwd else \
+                      ('a handler that is not a forward is exempted from the recursion guard' if want_raise else 'a handler that is not a forward is skipped by the forwarding path test')
+                c.fail(w, f'{kdesc}, {desc} -> {got}', f'_would_create_loop gives {got} for {kdesc} when {desc} (must be {wanted}): {why}')
 
 
 def fwd_predicates(c: Ctx) -> list[tuple[Unit, ast.AST, str]]:
@@ -221,6 +251,64 @@ def c07_6(c: Ctx) -> None:
     from .c14 import c14_3
 
     c14_3(c)
+
+
+def _uuid_tail_slice(c: Ctx, e: ast.AST, init: Unit, depth: int = 0) -> str | None:
+    """'tail' if *e* is X[-k:] (k >= 8) of a fresh uuid string (uuid7str()/uuid4/self.id), 'prefix' if it is X[:k] / X[a:b] of one, None otherwise."""
+    self_ = init.params()[0]
+    if isinstance(e, ast.Name) and depth < 3:
+        defs = [n for n in own_nodes(init.node) if isinstance(n, (ast.Assign, ast.AnnAssign)) and U(n.targets[0] if isinstance(n, ast.Assign) else n.target) == e.id]
+        kinds = {_uuid_tail_slice(c, d.value, init, depth + 1) for d in defs if d.value is not None}
+        return kinds.pop() if len(kinds) == 1 else None
+    if isinstance(e, ast.Subscript) and isinstance(e.slice, ast.Slice):
+        base = e.value
+        is_uuid = (isinstance(base, ast.Call) and call_name(base) in ('uuid7str', 'uuid4', 'uuid7', 'str', 'token_hex')) or U(base) == f'{self_}.id' or (isinstance(base, ast.Attribute) and base.attr == 'hex')
+        if not is_uuid:
+            return None
+        lo, hi = e.slice.lower, e.slice.upper
+        if hi is None and isinstance(lo, ast.UnaryOp) and isinstance(lo.op, ast.USub) and isinstance(lo.operand, ast.Constant) and isinstance(lo.operand.value, int) and lo.operand.value >= 8:
+            return 'tail'
+        return 'prefix'
+    return None
+
+
+@ob('C07.7', 'FLOW/WMW', 'bus names identify buses in event_path, so they are unique among live buses and never change: the constructor compares the requested name with every live '
+    'instance and, on a conflict, appends at least 8 characters from the *tail* of a fresh UUID (the random part; the head of a UUIDv7 is a timestamp shared by every bus '
+    'created in the same minute); `name` is assigned nowhere but in the constructor')
+def c07_7(c: Ctx) -> None:
+    init = c.unit(SVC, 'EventBus.__init__')
+    self_ = init.params()[0]
+    ws = [w for w in c.cg.all_writes('name') if w.unit.cls == 'EventBus' or (w.target or '').split('.')[0] in ('bus', 'eventbus', 'existing_bus', 'target_bus')]
+    outside = [w for w in ws if w.unit.key != init.key]
+    for w in outside:
+        c.fail(w.unit, f'assigns a bus name outside the constructor: {U(w.node)[:70]}', 'a bus is renamed while events carrying its old name in event_path are in flight: loop prevention no longer recognises it', node=w.node)
+    assigns = [n for n in own_nodes(init.node) if isinstance(n, ast.Assign) and U(n.targets[0]) == f'{self_}.name']
+    c.floor(len(assigns), 1, 'assignments of self.name in the constructor')
+    scan = [n for n in own_nodes(init.node) if isinstance(n, ast.Compare) and len(n.ops) == 1 and isinstance(n.ops[0], ast.Eq) and {U(n.left).split('.')[-1], U(n.comparators[0]).split('.')[-1]} == {'name'}]
+    loops = [q.enclosing(n, (ast.For,)) for n in scan]
+    if scan and any(lp is not None and 'all_instances' in U(lp.iter) for lp in loops):
+        c.ok(where(init, scan[0]), 'the requested name is compared with the name of every live instance')
+    else:
+        c.fail(init, 'no comparison of the requested name with the live instances', 'two live buses can share a name: a forward from one to the other is cut as a loop (or a real loop is not recognised)')
+        return
+    renames = [a for a in assigns if isinstance(a.value, ast.JoinedStr) and q.enclosing(a, (ast.If,)) is not None]
+    if not renames:
+        c.fail(init, 'a conflicting name is not replaced', 'two live buses can share a name: a forward from one to the other is cut as a loop', node=scan[0])
+        return
+    for a in renames:
+        parts = [v.value for v in a.value.values if isinstance(v, ast.FormattedValue)]
+        kinds = [_uuid_tail_slice(c, p_, init) for p_ in parts]
+        if 'tail' in kinds:
+            c.ok(where(init, a), f'conflicting name replaced by `{U(a.value)[:60]}`: suffix from the random tail of a fresh UUID')
+        else:
+            c.fail(init, f'conflict suffix is not the random tail of a fresh UUID: {U(a.value)[:70]} ({[k for k in kinds if k]})',
+                   'the de-duplicated name is not unique: the head of a UUIDv7 is a millisecond timestamp, so buses created close together get the same suffix and then share a name', node=a)
+
+
+@ob('C07.8', 'DOM', 'an event that reaches a bus a second time (a second forwarding route, a re-dispatch) runs no handler of that bus again, whatever state the first result ended in '
+    '(same obligation as C01.5)')
+def c07_8(c: Ctx) -> None:
+    c01.c01_5(c)
 
 
 OBLIGATIONS = ob.obs
